@@ -345,6 +345,21 @@ func Draw(t *rapid.T, o GenOpts) Schema {
 				}
 				ty.Fields = append(ty.Fields, f)
 			}
+			if ty.Repr == "map" && len(ty.Fields) >= 2 && rapid.IntRange(0, 3).Draw(t, "renameclash") == 0 {
+				// serial keys that are other fields' type-level names: a swap (fa<->fb) or a chain
+				// (fa serialised as "fb", fb as something fresh); the set of serial keys stays unique
+				i := rapid.IntRange(0, len(ty.Fields)-1).Draw(t, "clashi")
+				j := rapid.IntRange(0, len(ty.Fields)-2).Draw(t, "clashj")
+				if j >= i {
+					j++
+				}
+				ty.Fields[i].Rename = ty.Fields[j].Name
+				if rapid.Bool().Draw(t, "swap") {
+					ty.Fields[j].Rename = ty.Fields[i].Name
+				} else {
+					ty.Fields[j].Rename = "r" + strconv.Itoa(j)
+				}
+			}
 			if ty.Repr == "tuple" {
 				// optional fields only as a trailing run
 				seenReq := false
